@@ -142,12 +142,20 @@ package nbhttp
 //@   assigns everything
 //@   at entry ghost { res.gLen0 = buflen(res.buffer) + buflen(res.bodyBuffer) }
 //@   at call:eoncodeHead#1 ghost { res.gLen0 = buflen(res.buffer) + buflen(res.bodyBuffer) }
+//@   note wire order: whenever this function hands bytes to the connection the head has been encoded and is not waiting behind them
+//@   at before:Write#1 assert headfirst: res.headEncoded && res.buffer == nil   // prop C09
+//@   at before:Write#2 assert headfirst: res.headEncoded && res.buffer == nil   // prop C09
+//@   at before:Write#3 assert headfirst: res.headEncoded && res.buffer == nil   // prop C09
+//@   at before:Write#4 assert headfirst: res.headEncoded && res.buffer == nil   // prop C09
+//@   at before:Write#5 assert headfirst: res.headEncoded && res.buffer == nil   // prop C09
 
 // ---- final flush: everything buffered goes to the connection, the terminating chunk when chunked; both buffers are given back (C09, C11)
 //@ func (*Response).flush
 //@   props C09 C11
 //@   safety index slice nil div assert panic make
 //@   requires ResOwn(res) && conn != nil
+//@   requires enc: res.headEncoded
+//@   at before:Write#3 assert headfirst: res.buffer == nil   // prop C09
 //@   ensures own: ResOwn(res) && res.buffer == nil                                                                      // prop C11
 //@   ensures out: result == nil && !res.chunked ==> gOut - old(gOut) == old(buflen(res.buffer) + buflen(res.bodyBuffer)) && buflen(res.bodyBuffer) == 0      // prop C09
 //@   ensures freed: old(res.buffer) != nil ==> !liveP[old(res.buffer)]                                                  // prop C11
@@ -202,3 +210,106 @@ package nbhttp
 //@   ensures sent: result1 == nil && res.Parser.Conn != nil ==> res.buffer == nil && res.bodyBuffer == nil                                // prop C09
 //@   ensures own: ResOwn(res)                                                                                           // prop C11
 //@   assigns everything
+
+// =====================================================================================================================
+// HTTP/1.x parser (parser.go)
+// =====================================================================================================================
+
+// what a Processor callback leaves alone: the parser's private fields and every pooled buffer that existed before the call
+//@ pred PKeep(p *Parser) := p.bytesCached == old(p.bytesCached) && p.state == old(p.state) && p.Processor == old(p.Processor) && p.Engine == old(p.Engine) && p.chunked == old(p.chunked) && p.contentLength == old(p.contentLength) && p.chunkSize == old(p.chunkSize) && p.header == old(p.header) && p.trailer == old(p.trailer) && p.isClient == old(p.isClient) && p.headerExists == old(p.headerExists) && p.proto == old(p.proto) && p.status == old(p.status) && p.statusCode == old(p.statusCode) && p.headerKey == old(p.headerKey) && p.headerValue == old(p.headerValue) && (forall q int :: q <= old(top) ==> liveP[q] == old(liveP[q]) && box(q, "[]byte") == old(box(q, "[]byte")) && bytes_row(q) == old(bytes_row(q)))
+
+//@ iface nbhttp.Processor.OnMethod
+//@   ensures PKeep(parser)
+//@   assigns everything
+//@ iface nbhttp.Processor.OnURL
+//@   ensures PKeep(parser)
+//@   assigns everything
+//@ iface nbhttp.Processor.OnProto
+//@   ensures PKeep(parser)
+//@   assigns everything
+//@ iface nbhttp.Processor.OnStatus
+//@   ensures PKeep(parser)
+//@   assigns everything
+//@ iface nbhttp.Processor.OnHeader
+//@   ensures PKeep(parser)
+//@   assigns everything
+//@ iface nbhttp.Processor.OnContentLength
+//@   ensures PKeep(parser)
+//@   assigns everything
+//@ iface nbhttp.Processor.OnBody
+//@   ensures PKeep(parser)
+//@   assigns everything
+//@ iface nbhttp.Processor.OnTrailerHeader
+//@   ensures PKeep(parser)
+//@   assigns everything
+//@ iface nbhttp.Processor.OnComplete
+//@   ensures PKeep(parser)
+//@   assigns everything
+//@ iface nbhttp.Processor.Close
+//@   ensures PKeep(parser)
+//@   assigns everything
+//@ iface nbhttp.Processor.Clean
+//@   ensures PKeep(parser) && parser.ParserCloser == old(parser.ParserCloser)
+//@   assigns everything
+//@ iface nbhttp.ParserCloser.Parse
+//@   note the upgraded protocol's parser (websocket): works on its own state; pooled buffers that existed before stay as they were
+//@   ensures forall q int :: q <= old(top) ==> liveP[q] == old(liveP[q])
+//@   assigns everything
+
+//@ pred ParserInv(p *Parser) := p.Processor != nil && p.Engine != nil && (p.bytesCached != nil ==> liveP[p.bytesCached] && len(*p.bytesCached) > 0) && (p.state == stateBodyContentLength ==> p.contentLength > 0) && (p.state == stateBodyChunkData ==> p.chunkSize > 0)
+
+//@ func (*Parser).nextState
+//@   inline
+//@ func isAlpha
+//@   inline
+//@ func isNum
+//@   inline
+//@ func isHex
+//@   inline
+//@ func isToken
+//@   inline
+//@ func isValidMethodChar
+//@   inline
+//@ func isValidMethod
+//@   inline
+
+// framing metadata (C08: malformed metadata is rejected, never guessed)
+//@ func parseAndValidateChunkSize
+//@   props C08
+//@   safety index slice nil div assert panic make
+//@   ensures range: result1 == nil ==> 0 <= result0                                                                   // prop C08
+//@   ensures bad: result1 != nil ==> result0 == -1
+//@   assigns allocates
+//@ func (*Parser).parseTransferEncoding
+//@   props C08
+//@   safety index slice nil div assert panic make
+//@   ensures result == nil ==> (p.chunked || p.chunked == old(p.chunked))
+//@   assigns p.chunked, allmaps("string", "[]string"), allocates
+//@ func (*Parser).parseContentLength
+//@   props C08
+//@   safety index slice nil div assert panic make
+//@   ensures range: result == nil ==> p.contentLength >= -1                                                           // prop C08
+//@   assigns p.contentLength, allocates
+//@   loop 1
+//@     invariant -1 <= i && i < len(cl)
+//@ func (*Parser).parseTrailer
+//@   props C08
+//@   safety index slice nil div assert panic make
+//@   assigns p.trailer, allmaps("string", "[]string"), allocates
+//@   loop 1
+//@     invariant rangeindex >= -1
+//@   loop 2
+//@     invariant rangeindex >= -1
+//@ func (*Parser).handleMessage
+//@   inline
+
+//@ func (*Parser).Parse
+//@   props C08 C11
+//@   safety index slice nil div assert panic make
+//@   requires ParserInv(p)
+//@   ensures own: p.bytesCached != nil ==> liveP[p.bytesCached]                                                         // prop C11
+//@   assigns everything
+//@   loop 1
+//@     invariant 0 <= start && start <= len(data) && 0 <= offset && offset <= len(data) && (start == 0 || p.ParserCloser != nil) && ParserInv(p)
+//@   loop 2
+//@     invariant 0 <= start && start <= i && i <= len(data) && ParserInv(p)
